@@ -1473,6 +1473,8 @@ impl TypeChecker {
                         elaboration_kind: "unit definition",
                     })?;
 
+                self.enforce_dtype(&type_deduced, expr.full_span())?;
+
                 for (name, _) in decorator::name_and_aliases(identifier, decorators) {
                     self.env.add(
                         name.to_compact_string(),
